@@ -688,7 +688,7 @@ def main():
             src_changed = fingerprint.changed_for(pid)
             # a new impl block or macro invocation in a modelled file can redirect method calls (an inherent method takes
             # precedence over a trait method of the same name) without touching any recorded item
-            src_changed += ["%s (added)" % a for a in fingerprint.added_for(pid) if re.search(r" :: (impl\b|\w+!\()", a)]
+            src_changed += ["%s (added)" % a for a in fingerprint.added_for(pid) if fingerprint.suspicious_added(a.split(" :: ", 1)[1])]
             if src_changed:
                 proved, tie_report = tie_status()
                 src_changed, src_excused = excuse_translated(src_changed, proved)
